@@ -28,7 +28,9 @@ struct V
     file: String,
     fn_stack: Vec<String>,
     struct_name: Option<String>,
-    consts: Vec<(String, String, &'static str)>,
+    consts: Vec<(String, String, &'static str, String)>, // (name, value, type, file)
+    sig_fns: Vec<String>,                 // fns with signature (&self, u32) -> String
+    single_u32_structs: Vec<(String, String, Vec<String>)>, // (struct, field, serde attrs) of structs with exactly one u32 field
     default_fns: Vec<(String, String, &'static str)>,
     serde_fields: Vec<(String, String, String)>,
     formats: Vec<(String, String)>,       // (enclosing fn, literal)
@@ -154,7 +156,7 @@ impl<'ast> Visit<'ast> for V
         {
             if let Some((g, ty)) = lit_to_gallina(&l.lit)
             {
-                self.consts.push((c.ident.to_string(), g, ty));
+                self.consts.push((c.ident.to_string(), g, ty, self.file.clone()));
             }
         }
     }
@@ -165,13 +167,47 @@ impl<'ast> Visit<'ast> for V
         {
             if let Some((g, ty)) = lit_to_gallina(&l.lit)
             {
-                self.consts.push((c.ident.to_string(), g, ty));
+                self.consts.push((c.ident.to_string(), g, ty, self.file.clone()));
             }
         }
     }
 
     fn visit_item_struct(&mut self, s: &'ast syn::ItemStruct)
     {
+        {
+            let fields: Vec<&syn::Field> = s.fields.iter().collect();
+            if fields.len() == 1
+            {
+                let ty = match &fields[0].ty
+                {
+                    syn::Type::Path(p) => p.path.segments.last().map(|x| x.ident.to_string()).unwrap_or_default(),
+                    _ => String::new(),
+                };
+                if ty == "u32"
+                {
+                    let mut attrs = Vec::new();
+                    for a in &s.attrs
+                    {
+                        if a.path().is_ident("serde")
+                        {
+                            attrs.push("struct".to_string());
+                        }
+                    }
+                    for a in &fields[0].attrs
+                    {
+                        if a.path().is_ident("serde")
+                        {
+                            attrs.push("field".to_string());
+                        }
+                    }
+                    self.single_u32_structs.push((
+                        s.ident.to_string(),
+                        fields[0].ident.as_ref().map(|i| i.to_string()).unwrap_or_default(),
+                        attrs,
+                    ));
+                }
+            }
+        }
         if s.ident == "Cache"
         {
             for a in &s.attrs
@@ -231,7 +267,7 @@ impl<'ast> Visit<'ast> for V
     fn visit_item_fn(&mut self, f: &'ast syn::ItemFn)
     {
         let name = f.sig.ident.to_string();
-        if name.starts_with("default_") && f.block.stmts.len() == 1
+        if f.block.stmts.len() == 1 && f.sig.inputs.is_empty()
         {
             if let syn::Stmt::Expr(e, None) = &f.block.stmts[0]
             {
@@ -249,24 +285,22 @@ impl<'ast> Visit<'ast> for V
                         use syn::parse::Parser;
                         let parser =
                             syn::punctuated::Punctuated::<syn::Expr, syn::Token![,]>::parse_terminated;
-                        let args = parser
-                            .parse2(m.mac.tokens.clone())
-                            .unwrap_or_else(|_| refuse("vec! in a serde default not understood"));
-                        let items: Vec<String> = args
-                            .iter()
-                            .map(|a| {
-                                cps(&string_like(a).unwrap_or_else(|| {
-                                    refuse("vec! element in a serde default is not a string")
-                                }))
-                            })
-                            .collect();
-                        self.default_fns.push((
-                            name.clone(),
-                            format!("[{}]", items.join("; ")),
-                            "list (list N)",
-                        ));
+                        if let Ok(args) = parser.parse2(m.mac.tokens.clone())
+                        {
+                            let items: Vec<Option<String>> =
+                                args.iter().map(|a| string_like(a).map(|x| cps(&x))).collect();
+                            if items.iter().all(|x| x.is_some())
+                            {
+                                let items: Vec<String> = items.into_iter().map(|x| x.unwrap()).collect();
+                                self.default_fns.push((
+                                    name.clone(),
+                                    format!("[{}]", items.join("; ")),
+                                    "list (list N)",
+                                ));
+                            }
+                        }
                     },
-                    _ => refuse(&format!("serde default function {} not understood", name)),
+                    _ => (),
                 }
             }
         }
@@ -277,6 +311,31 @@ impl<'ast> Visit<'ast> for V
 
     fn visit_impl_item_fn(&mut self, f: &'ast syn::ImplItemFn)
     {
+        {
+            let ins: Vec<&syn::FnArg> = f.sig.inputs.iter().collect();
+            let ret_string = match &f.sig.output
+            {
+                syn::ReturnType::Type(_, t) => match &**t
+                {
+                    syn::Type::Path(p) => p.path.segments.last().map_or(false, |x| x.ident == "String"),
+                    _ => false,
+                },
+                _ => false,
+            };
+            if ins.len() == 2 && ret_string && matches!(ins[0], syn::FnArg::Receiver(_))
+            {
+                if let syn::FnArg::Typed(pt) = ins[1]
+                {
+                    if let syn::Type::Path(p) = &*pt.ty
+                    {
+                        if p.path.is_ident("u32")
+                        {
+                            self.sig_fns.push(f.sig.ident.to_string());
+                        }
+                    }
+                }
+            }
+        }
         self.fn_stack.push(f.sig.ident.to_string());
         syn::visit::visit_impl_item_fn(self, f);
         self.fn_stack.pop();
@@ -341,6 +400,18 @@ fn split_placeholder(lit: &str) -> (String, String)
     (parts[0].to_string(), parts[1].to_string())
 }
 
+/// The constants the model refers to, by ROLE: the name they have at the pinned commit, the file
+/// they live in, their Gallina type, and their position among the constants of that type in that
+/// file (source order) together with how many such constants the file has.  A constant is looked up
+/// by name first; a renamed one is identified by position, provided the count still matches.
+const ROLES: [(&str, &str, &str, usize, usize); 5] = [
+    ("START_REFERENCE_ID", "codegen/generate.rs", "N", 0, 1),
+    ("IGNORE_DIRECTIVE_TEXT", "parser/code_parser.rs", "list N", 0, 2),
+    ("NO_KVP_DIRECTIVE_TEXT", "parser/code_parser.rs", "list N", 1, 2),
+    ("CACHE_FILENAME", "config/context.rs", "list N", 0, 2),
+    ("CACHE_EDIT_WARNING", "config/context.rs", "list N", 1, 2),
+];
+
 pub fn translate(repo: &str) -> String
 {
     let mut v = V::default();
@@ -355,95 +426,194 @@ pub fn translate(repo: &str) -> String
     out.push_str("From Coq Require Import List NArith String.\n");
     out.push_str("Import ListNotations.\nOpen Scope N_scope.\n\n");
 
-    let need = [
-        "START_REFERENCE_ID",
-        "IGNORE_DIRECTIVE_TEXT",
-        "NO_KVP_DIRECTIVE_TEXT",
-        "CACHE_FILENAME",
-        "INIT_ERR_CODE",
-        "CODE_GEN_ERR_CODE",
-    ];
-    for n in need
-    {
-        if v.consts.iter().filter(|c| c.0 == n).count() != 1
-        {
-            refuse(&format!("constant {} not found exactly once", n));
-        }
-    }
     let mut seen = std::collections::BTreeSet::new();
-    for (n, g, ty) in &v.consts
+    for (n, _, _, _) in &v.consts
     {
         if !seen.insert(n.clone())
         {
             refuse(&format!("constant {} defined more than once", n));
         }
-        out.push_str(&format!("Definition c_{} : {} := {}.\n", n, ty, g));
+    }
+    let mut emitted = std::collections::BTreeSet::new();
+    for (role, file, ty, ord, count) in ROLES
+    {
+        let by_name: Vec<&(String, String, &'static str, String)> =
+            v.consts.iter().filter(|c| c.0 == role).collect();
+        let c = if by_name.len() == 1
+        {
+            by_name[0]
+        }
+        else
+        {
+            let in_file: Vec<&(String, String, &'static str, String)> = v
+                .consts
+                .iter()
+                .filter(|c| c.3.ends_with(file) && c.2 == ty)
+                .collect();
+            if in_file.len() != count
+            {
+                refuse(&format!(
+                    "constant {} not found by name, and {} has {} constants of type {} where {} were expected",
+                    role,
+                    file,
+                    in_file.len(),
+                    ty,
+                    count
+                ));
+            }
+            out.push_str(&format!(
+                "(* {} is called {} in the source now; identified by its position in {} *)\n",
+                role, in_file[ord].0, file
+            ));
+            in_file[ord]
+        };
+        if c.2 != ty
+        {
+            refuse(&format!("constant {} has type {}, expected {}", role, c.2, ty));
+        }
+        out.push_str(&format!("Definition c_{} : {} := {}.\n", role, ty, c.1));
+        emitted.insert(c.0.clone());
+    }
+    // every other literal constant, under its own name (not referred to by the model)
+    for (n, g, ty, _) in &v.consts
+    {
+        if !emitted.contains(n) && !ROLES.iter().any(|r| r.0 == n)
+        {
+            out.push_str(&format!("Definition c_{} : {} := {}.\n", n, ty, g));
+        }
     }
     out.push('\n');
 
-    // lazy_static strings (the `ref` key)
-    let mut have_key = false;
-    for ls in lazy_statics(repo)
-    {
-        if ls.ty.replace(' ', "") == "String"
-        {
-            let e = &ls.init;
-            let s = string_like(e).unwrap_or_else(|| {
+    // lazy_static strings (the `ref` key): by name, else the only String static there is
+    let strings: Vec<(String, String)> = lazy_statics(repo)
+        .into_iter()
+        .filter(|ls| ls.ty.replace(' ', "") == "String")
+        .map(|ls| {
+            let s = string_like(&ls.init).unwrap_or_else(|| {
                 refuse(&format!("String static {} is not a literal", ls.name))
             });
-            out.push_str(&format!("Definition c_{} : list N := {}.\n", ls.name, cps(&s)));
-            if ls.name == "REF_KVP_KEY"
-            {
-                have_key = true;
-            }
-        }
-    }
-    if !have_key
+            (ls.name, s)
+        })
+        .collect();
+    let key = match strings.iter().find(|x| x.0 == "REF_KVP_KEY")
     {
-        refuse("REF_KVP_KEY not found");
+        Some(k) => k,
+        None =>
+        {
+            if strings.len() != 1
+            {
+                refuse("REF_KVP_KEY not found, and there is not exactly one String static");
+            }
+            out.push_str(&format!("(* REF_KVP_KEY is called {} in the source now *)\n", strings[0].0));
+            &strings[0]
+        },
+    };
+    out.push_str(&format!("Definition c_REF_KVP_KEY : list N := {}.\n", cps(&key.1)));
+    for (n, s) in &strings
+    {
+        if n != &key.0
+        {
+            out.push_str(&format!("Definition c_{} : list N := {}.\n", n, cps(s)));
+        }
     }
     out.push('\n');
 
-    for n in ["default_use_cache", "default_rust_structured", "default_rust_extensions"]
+    // serde defaults, by YAML key: the function named in #[serde(default = "..")] of the field, whatever
+    // the function and the struct are called
+    let mut keys = Vec::new();
+    for (key, canonical, ty) in [
+        ("extensions", "default_rust_extensions", "list (list N)"),
+        ("structured", "default_rust_structured", "bool"),
+        ("use_cache", "default_use_cache", "bool"),
+    ]
     {
-        if v.default_fns.iter().filter(|c| c.0 == n).count() != 1
+        let fields: Vec<&(String, String, String)> = v.serde_fields.iter().filter(|f| f.1 == key).collect();
+        if fields.len() != 1
         {
-            refuse(&format!("serde default function {} not found", n));
+            refuse(&format!("expected exactly one field {} with a serde default", key));
         }
+        let fns: Vec<&(String, String, &'static str)> =
+            v.default_fns.iter().filter(|c| c.0 == fields[0].2).collect();
+        if fns.len() != 1
+        {
+            refuse(&format!(
+                "serde default function {} of field {} not found or not understood",
+                fields[0].2, key
+            ));
+        }
+        if fns[0].2 != ty
+        {
+            refuse(&format!("serde default of {} has type {}, expected {}", key, fns[0].2, ty));
+        }
+        out.push_str(&format!("Definition c_{} : {} := {}.\n", canonical, ty, fns[0].1));
     }
-    for (n, g, ty) in &v.default_fns
+    for (_, f, _) in &v.serde_fields
     {
-        out.push_str(&format!("Definition c_{} : {} := {}.\n", n, ty, g));
+        keys.push(format!("\"{}\"", f));
     }
-    let fields: Vec<String> = v
-        .serde_fields
-        .iter()
-        .map(|(s, f, d)| format!("(\"{}\", \"{}\", \"{}\")", s, f, d))
-        .collect();
+    keys.sort();
     out.push_str(&format!(
-        "Definition serde_defaults : list (string * string * string) :=\n  [{}]%string.\n\n",
-        fields.join("; ")
+        "(* the YAML keys that have a serde default *)\nDefinition serde_default_keys : list string :=\n  [{}]%string.\n\n",
+        keys.join("; ")
     ));
 
-    // the lock file structure: exactly one u32 field, plain serde derive (no container / field attributes)
-    if v.lock_fields.len() != 1 || v.lock_fields[0].1 != "u32" || !v.lock_struct_attrs.is_empty()
+    // the lock file structure: exactly one u32 field, plain serde derive (no container / field attributes);
+    // struct Cache, or -- renamed -- the only struct with exactly one u32 field
+    let (lock_field, lock_attrs) = if v.lock_fields.len() == 1 && v.lock_fields[0].1 == "u32"
+    {
+        (v.lock_fields[0].0.clone(), v.lock_struct_attrs.clone())
+    }
+    else if v.lock_fields.is_empty() && v.single_u32_structs.len() == 1
+    {
+        out.push_str(&format!(
+            "(* struct Cache is called {} in the source now *)\n",
+            v.single_u32_structs[0].0
+        ));
+        (v.single_u32_structs[0].1.clone(), v.single_u32_structs[0].2.clone())
+    }
+    else
     {
         refuse(&format!(
-            "struct Cache is not a single plain u32 field: fields {:?}, serde attributes {:?}",
-            v.lock_fields, v.lock_struct_attrs
-        ));
+            "struct Cache is not a single plain u32 field: fields {:?}; single-u32 structs {:?}",
+            v.lock_fields, v.single_u32_structs
+        ))
+    };
+    if !lock_attrs.is_empty()
+    {
+        refuse(&format!("the lock file struct carries serde attributes {:?}", lock_attrs));
     }
     out.push_str(&format!(
         "(* the only field of the lock file structure (struct Cache, serialised by serde_yaml) *)\nDefinition c_lock_field : list N := {}.\n\n",
-        cps(&v.lock_fields[0].0)
+        cps(&lock_field)
     ));
 
-    // format pieces
-    let default_fmt: Vec<&(String, String)> = v
-        .formats
-        .iter()
-        .filter(|(f, l)| f == "insertable_reference_string" && l != "{}")
-        .collect();
+    // format pieces: the function insertable_reference_string, or -- renamed -- the only method (&self, u32) -> String.
+    // Its format! literals are either placeholders only ("{}", "{}{}{}": the pieces come from the entry) or
+    // the default token <text>{}<text>, of which there is exactly one.
+    let irs = if v.formats.iter().any(|(f, _)| f == "insertable_reference_string")
+    {
+        "insertable_reference_string".to_string()
+    }
+    else
+    {
+        let cands: Vec<&String> = v
+            .sig_fns
+            .iter()
+            .filter(|n| v.formats.iter().any(|(f, _)| &f == n))
+            .collect();
+        if cands.len() != 1
+        {
+            refuse("insertable_reference_string not found, and there is not exactly one method (&self, u32) -> String with a format!");
+        }
+        out.push_str(&format!(
+            "(* insertable_reference_string is called {} in the source now *)\n",
+            cands[0]
+        ));
+        cands[0].clone()
+    };
+    let in_irs: Vec<&(String, String)> = v.formats.iter().filter(|(f, _)| *f == irs).collect();
+    let default_fmt: Vec<&&(String, String)> =
+        in_irs.iter().filter(|(_, l)| !l.replace("{}", "").is_empty()).collect();
     if default_fmt.len() != 1
     {
         refuse("expected exactly one non-trivial format! in insertable_reference_string");
@@ -454,40 +624,74 @@ pub fn translate(repo: &str) -> String
         cps(&pre),
         cps(&post)
     ));
-    let bare: Vec<&(String, String)> = v
-        .formats
-        .iter()
-        .filter(|(f, l)| f == "insertable_reference_string" && l == "{}")
-        .collect();
-    if bare.len() != 1
+    let bare = in_irs.iter().filter(|(_, l)| l.replace("{}", "").is_empty() && !l.is_empty()).count();
+    if bare != 1
     {
-        refuse("expected exactly one format!(\"{}\", id) in insertable_reference_string");
+        refuse("expected exactly one placeholder-only format! in insertable_reference_string");
     }
-    let prefixes: Vec<&(String, String, String)> = v
+
+    // the key-value pieces: assignments of string-likes to locals of one function: one with a placeholder
+    // (the prefix) and two without (the suffixes, in source order).  By name (find / insertion_prefix /
+    // insertion_suffix), else the only function whose string-like assignments have that shape.
+    let named: Vec<&(String, String, String)> = v
         .assigns
         .iter()
-        .filter(|(f, var, _)| f == "find" && var == "insertion_prefix")
+        .filter(|(f, var, _)| f == "find" && (var == "insertion_prefix" || var == "insertion_suffix"))
         .collect();
+    let (prefixes, suffixes): (Vec<String>, Vec<String>) = if named.len() == 3
+    {
+        (
+            named.iter().filter(|a| a.1 == "insertion_prefix").map(|a| a.2.clone()).collect(),
+            named.iter().filter(|a| a.1 == "insertion_suffix").map(|a| a.2.clone()).collect(),
+        )
+    }
+    else
+    {
+        let mut fns: Vec<String> = v.assigns.iter().map(|a| a.0.clone()).collect();
+        fns.sort();
+        fns.dedup();
+        let shaped: Vec<&String> = fns
+            .iter()
+            .filter(|f| {
+                let a: Vec<&(String, String, String)> = v.assigns.iter().filter(|x| &x.0 == *f).collect();
+                let with_ph: Vec<&&(String, String, String)> = a.iter().filter(|x| x.2.contains("{}")).collect();
+                let without: Vec<&&(String, String, String)> = a.iter().filter(|x| !x.2.contains("{}")).collect();
+                a.len() == 3
+                    && with_ph.len() == 1
+                    && without.len() == 2
+                    && without[0].1 == without[1].1
+                    && with_ph[0].1 != without[0].1
+            })
+            .collect();
+        if shaped.len() != 1
+        {
+            refuse("expected one assignment to insertion_prefix and two to insertion_suffix in find (or one function of that shape)");
+        }
+        out.push_str(&format!(
+            "(* the key-value pieces are assigned in {} now (find / insertion_prefix / insertion_suffix at the pinned commit) *)\n",
+            shaped[0]
+        ));
+        let a: Vec<&(String, String, String)> = v.assigns.iter().filter(|x| &x.0 == shaped[0]).collect();
+        (
+            a.iter().filter(|x| x.2.contains("{}")).map(|x| x.2.clone()).collect(),
+            a.iter().filter(|x| !x.2.contains("{}")).map(|x| x.2.clone()).collect(),
+        )
+    };
     if prefixes.len() != 1
     {
         refuse("expected exactly one assignment to insertion_prefix in find");
     }
-    let (ppre, ppost) = split_placeholder(&prefixes[0].2);
+    let (ppre, ppost) = split_placeholder(&prefixes[0]);
     out.push_str(&format!(
         "Definition fmt_structured_prefix : list N * list N := ({}, {}).\n",
         cps(&ppre),
         cps(&ppost)
     ));
-    let suffixes: Vec<String> = v
-        .assigns
-        .iter()
-        .filter(|(f, var, _)| f == "find" && var == "insertion_suffix")
-        .map(|(_, _, l)| cps(l))
-        .collect();
     if suffixes.len() != 2
     {
         refuse("expected exactly two assignments to insertion_suffix in find");
     }
+    let suffixes: Vec<String> = suffixes.iter().map(|l| cps(l)).collect();
     out.push_str(&format!(
         "(* in source order: the first is used when other key-values exist *)\nDefinition structured_suffixes : list (list N) := [{}].\n\n",
         suffixes.join("; ")
